@@ -103,6 +103,12 @@ def install(reg):
         def permutation(self, x):
             ctx = V.cur()
             self.draws += 1
+            if not isinstance(x, SymArr) and (isinstance(x, Sym) or (isinstance(x, int) and not isinstance(x, bool))):
+                # numpy: Generator.permutation(n) permutes np.arange(n); a negative n raises
+                if isinstance(x, Sym) and not ctx.entails(lift(x) >= 0):
+                    raise OutOfSubset("permutation(n): n not known to be non-negative")
+                nt0 = lift(x)
+                x = index_array(x, lambda i: Sym(i), lambda v: z3.And(lift(v) >= 0, lift(v) < nt0), lambda v: lift(v), name="arange")
             if not isinstance(x, SymArr):
                 raise OutOfSubset("permutation of non-array")
             n = x.shape[0]
